@@ -257,6 +257,7 @@ package gonum
 //@ panics iff !valid, before-writes
 //@ writes x[start(n,incX)+j*incX] for j in 0..n
 //@ reads a[i*lda+j] for i in 0..n, j in 0..k+1 if ((ul == blas.Upper && i+j < n) || (ul == blas.Lower && i+j-k >= 0)) && (d != blas.Unit || (ul == blas.Upper && j != 0) || (ul == blas.Lower && j != k))
+//@ witness i-k+j, i-bands+j
 
 //@ func Implementation.Dtpmv Implementation.Stpmv Implementation.Dtpsv Implementation.Stpsv props: C01(frame) C07(safety)
 //@ valid flagUL(ul) && flagT(tA) && flagD(d) && n >= 0 && incX != 0 &&
